@@ -120,6 +120,63 @@ def _ravel(ex, st, args, kwargs, node):
     raise Unsupported('ravel of %d-d array' % a.ndim)
 
 
+@model('.tolist')
+def _tolist(ex, st, args, kwargs, node):
+    return args[0]          # the same sequence of values (list-like use only)
+
+
+@model('.argmax', 'numpy.argmax')
+def _argmax(ex, st, args, kwargs, node):
+    """assumed: argmax(a) (1-D, non-empty) is the FIRST index of a greatest element"""
+    c = ex.c
+    a = arr(ex, st, args[0])
+    if a is None or a.ndim != 1:
+        raise Unsupported('argmax of non 1-D')
+    ex.oblige('safe.nonempty', st, to_int(a.shape[0]) >= 1, node)
+    cn = conc_int(a.shape[0])
+    m = c.fresh('argmax', INT)
+    st.assume(m >= 0, m < to_int(a.shape[0]))
+    st.assume(c.Forall(0, a.shape[0], lambda j: a.elem((j,)) <= a.elem((m,))))
+    st.assume(c.Forall(0, m, lambda j: a.elem((j,)) < a.elem((m,))))
+    return m
+
+
+@model('numpy.interp')
+def _interp(ex, st, args, kwargs, node):
+    """assumed: np.interp(x, xp, fp) for non-decreasing xp (n >= 1; a call-site obligation): fp[0] below xp[0], fp[n-1] at
+    or above xp[n-1], and for xp[i] <= x < xp[i+1] the straight line through (xp[i], fp[i]) and (xp[i+1], fp[i+1])"""
+    c = ex.c
+    X, XP, FP = args[0], arr(ex, st, args[1]), arr(ex, st, args[2])
+    if XP is None or FP is None or XP.ndim != 1 or FP.ndim != 1 or len(args) > 3 or kwargs:
+        raise Unsupported('np.interp form')
+    n = XP.shape[0]
+    from .engine import _same
+    if not _same(FP.shape[0], n):
+        ex.oblige('safe.shape', st, as_term(FP.shape[0]) == as_term(n), node)
+    ex.oblige('safe.nonempty', st, to_int(n) >= 1, node)
+    if 'sorted' in ex.safety:
+        ex.oblige('safe.sorted', st, c.ForallAdj(0, _minus1(n), lambda i, j: XP.elem((i,)) <= XP.elem((j,))), node)
+    xa = arr(ex, st, X)
+
+    def one(x, tag):
+        r = c.fresh('interp', REAL)
+        x = to_real(x)
+        last = z3.simplify(to_int(n) - 1) if is_sym(n) else n - 1
+        st.assume(z3.Implies(x < XP.elem((0,)), r == to_real(FP.elem((0,)))))
+        st.assume(z3.Implies(x >= XP.elem((last,)), r == to_real(FP.elem((last,)))))
+        st.assume(c.ForallAdj(0, last, lambda i, j: z3.Implies(
+            z3.And(XP.elem((i,)) <= x, x < XP.elem((j,))),
+            r == FP.elem((i,)) + (x - XP.elem((i,))) * ((FP.elem((j,)) - FP.elem((i,))) / (XP.elem((j,)) - XP.elem((i,)))))))
+        return r
+    if xa is None:
+        return one(X, 0)
+    cn = conc_int(xa.shape[0]) if xa.ndim == 1 else None
+    if cn is None:
+        raise Unsupported('np.interp over a symbolic number of points')
+    vals = [one(xa.elem((k,)), k) for k in range(cn)]
+    return st.alloc(c, Arr((cn,), lambda ix, vals=vals: _select(vals, ix[0]), 'real'))
+
+
 @model('.astype')
 def _astype(ex, st, args, kwargs, node):
     return args[0]
@@ -363,6 +420,20 @@ def _sum(ex, st, args, kwargs, node):
     return _sum_arr(ex, st, a, axis, node)
 
 
+@model('numpy.average')
+def _average(ex, st, args, kwargs, node):
+    """assumed: np.average(a, weights=w) (1-D) = sum w a / sum w; without weights the mean"""
+    a = arr(ex, st, args[0])
+    w = kwargs.get('weights')
+    if a is None or a.ndim != 1:
+        raise Unsupported('average of non 1-D')
+    if w is None:
+        return _sum_arr(ex, st, a, None, node) / to_real(a.shape[0])
+    W = arr(ex, st, w)
+    c = ex.c
+    return c.Sum(0, a.shape[0], lambda j: W.elem((j,)) * a.elem((j,))) / c.Sum(0, a.shape[0], lambda j: W.elem((j,)))
+
+
 @model('numpy.mean', '.mean')
 def _mean(ex, st, args, kwargs, node):
     a = arr(ex, st, args[0])
@@ -538,6 +609,16 @@ def _argsort(ex, st, args, kwargs, node):
         raise Unsupported('argsort of non 1-D')
     n = to_int(a.shape[0])
     c = ex.c
+    # argsort is a function of the array's content: a second call on an array with (provably, element by element)
+    # the same content returns the same permutation
+    cn0 = conc_int(a.shape[0])
+    cache = c.__dict__.setdefault('_argsort_cache', [])
+    for a_prev, res_prev in cache:
+        if cn0 is not None and conc_int(a_prev.shape[0]) == cn0 and cn0 <= 16 and all(
+                _same_term(a.elem((k,)), a_prev.elem((k,))) for k in range(cn0)):
+            return st.alloc(c, res_prev)
+        if cn0 is None and a_prev.elem is a.elem:
+            return st.alloc(c, res_prev)
     if c.mode == 'bmc':
         # bounded instance: the permutation is n fresh integers constrained as below (quantifier free)
         cn = conc_int(n)
@@ -548,8 +629,14 @@ def _argsort(ex, st, args, kwargs, node):
         A = lambda i: a.elem((i,))
         for k in range(cn - 1):
             st.assume(A(ps[k]) <= A(ps[k + 1]))
-        from .engine import Exec
-        return st.alloc(c, Arr((cn,), lambda ix, ps=ps: _select(ps, ix[0]), 'int'))
+        def inv(j, ps=ps):
+            r = z3.IntVal(0)
+            for k in range(len(ps) - 1, -1, -1):
+                r = z3.If(ps[k] == to_int(j), z3.IntVal(k), r)
+            return r
+        res = Arr((cn,), lambda ix, ps=ps: _select(ps, ix[0]), 'int', inv=inv)
+        cache.append((a, res))
+        return st.alloc(c, res)
     pf = z3.Function('perm!%d' % next(c._fresh), INT, INT)
     qf = z3.Function('iperm!%d' % next(c._fresh), INT, INT)
     i, j = c.fresh('pi'), c.fresh('pj')
@@ -558,7 +645,17 @@ def _argsort(ex, st, args, kwargs, node):
     st.assume(z3.ForAll([i, j], z3.Implies(z3.And(0 <= i, i < j, j < n), a.elem((pf(i),)) <= a.elem((pf(j),))),
                         patterns=[z3.MultiPattern(pf(i), pf(j))]))
     c.last_perm = (pf, qf)          # exposed to contracts as witnesses (the permutation and its inverse)
-    return st.alloc(c, Arr((a.shape[0],), lambda ix, pf=pf: pf(to_int(ix[0])), 'int'))
+    res = Arr((a.shape[0],), lambda ix, pf=pf: pf(to_int(ix[0])), 'int', inv=lambda j, qf=qf: qf(to_int(j)))
+    cache.append((a, res))
+    return st.alloc(c, res)
+
+
+def _same_term(x, y):
+    if is_sym(x) and is_sym(y):
+        return z3.simplify(x).eq(z3.simplify(y))
+    if not is_sym(x) and not is_sym(y):
+        return x == y
+    return False
 
 
 def _select(items, i):
@@ -571,13 +668,24 @@ def _select(items, i):
     return r
 
 
-@model('numpy.cumsum', '.cumsum')
+@model('numpy.cumsum', '.cumsum', 'numpy.add.accumulate')
 def _cumsum(ex, st, args, kwargs, node):
     """assumed: cumsum(a)[i] = sum_{j<=i} a[j] (1-D)"""
     a = arr(ex, st, args[0])
     if a is None or a.ndim != 1:
         raise Unsupported('cumsum of non 1-D')
-    return st.alloc(ex.c, Arr(a.shape, lambda ix: ex.c.Sum(0, _plus1(ix[0]), lambda j: a.elem((j,))), 'real'))
+    c = ex.c
+    n = a.shape[0]
+    S = lambda i: c.Sum(0, _plus1(i), lambda j: a.elem((j,)))
+    if c.mode == 'sym':
+        # partial sums of non-negative entries are non-negative, non-decreasing, and the total dominates every entry
+        # (induction: lemma cumsum_of_nonnegative in contracts/kernels.py); offered guarded by its premise
+        nonneg = c.Forall(0, n, lambda j: to_real(a.elem((j,))) >= 0)
+        last = z3.simplify(to_int(n) - 1)
+        st.assume(z3.Implies(nonneg, z3.And(c.Forall(0, n, lambda i: S(i) >= 0),
+                                            c.ForallAdj(0, last, lambda i, j: S(i) <= S(j)),
+                                            c.Forall(0, n, lambda k: S(last) >= to_real(a.elem((k,)))))))
+    return st.alloc(c, Arr(a.shape, lambda ix: S(ix[0]), 'real'))
 
 
 def _plus1(i):
